@@ -296,7 +296,7 @@ def run_controls(mod, prop, known_keys):
     copy lives under $TMPDIR and is removed afterwards.  A mutant whose patch no longer applies is skipped (noted)."""
     import glob, shutil, subprocess, fcntl, tempfile
     out = []
-    dirs = sorted(glob.glob(os.path.join(VERIF, "seeded", prop + "-*")))
+    dirs = sorted(glob.glob(os.path.join(VERIF, "seeded", prop + "-*m[0-9]*")))
     if not dirs:
         return out
     base = os.path.join(os.environ.get("TMPDIR", "/tmp"), "verif-controls")
